@@ -5,6 +5,7 @@ import (
 	"fmt"
 	"regexp"
 	"strings"
+	"unicode/utf8"
 
 	"github.com/verily-src/fhirpath-go/fhirpath/internal/expr"
 	"github.com/verily-src/fhirpath-go/fhirpath/system"
@@ -93,7 +94,8 @@ func Length(ctx *expr.Context, input system.Collection, args ...expr.Expression)
 		return nil, fmt.Errorf("%w, received %v arguments, expected 0", ErrWrongArity, length)
 	}
 
-	result := system.Integer(len(fullString))
+	// length counts characters (code points), not bytes
+	result := system.Integer(utf8.RuneCountInString(fullString))
 	return system.Collection{result}, nil
 }
 
@@ -225,7 +227,9 @@ func Substring(ctx *expr.Context, input system.Collection, args ...expr.Expressi
 	if err != nil {
 		return nil, err
 	}
-	if int(start) >= len(fullString) {
+	// positions and lengths count characters (code points), not bytes
+	runes := []rune(fullString)
+	if start < 0 || int(start) >= len(runes) {
 		return system.Collection{}, nil
 	}
 
@@ -245,11 +249,11 @@ func Substring(ctx *expr.Context, input system.Collection, args ...expr.Expressi
 	}
 
 	var result system.String
-	if substringLength > -1 && int(start+substringLength) < len(fullString) {
+	if substringLength > -1 && int64(start)+int64(substringLength) < int64(len(runes)) {
 		// Substring will not go out of bounds
-		result = system.String(fullString[start : start+substringLength])
+		result = system.String(runes[start : start+substringLength])
 	} else {
-		result = system.String(fullString[start:])
+		result = system.String(runes[start:])
 	}
 	return system.Collection{result}, nil
 }
@@ -286,7 +290,12 @@ func IndexOf(ctx *expr.Context, input system.Collection, args ...expr.Expression
 		return nil, err
 	}
 
-	result := system.Integer(strings.Index(fullString, substring))
+	index := strings.Index(fullString, substring)
+	if index > 0 {
+		// convert the byte offset into a character (code point) position
+		index = utf8.RuneCountInString(fullString[:index])
+	}
+	result := system.Integer(index)
 	return system.Collection{result}, nil
 }
 
